@@ -141,3 +141,47 @@ def zero_first_scenario(rng: random.Random) -> Scenario:
     return Scenario(lines, {"family": family + "+zero_first", "filter": "none" if f is None else "+".join(f) or "empty-composite",
                             "style": "zero_first", "flexible": gen.is_flexible(jobs), "zero_dur": True, "accepted": n_acc,
                             "invalid": 0, "complete": True, "filter_style": rng.choice(["callable", "enum", "str", "lazy"])})
+
+
+def stale_ready_scenario(rng: random.Random) -> Scenario:
+    """An unfinished episode in which the user asks whether operations are ready (some beyond the first position are), a reset,
+    and then requests for exactly those operations - not ready any more: rejected, nothing changes - before a full episode."""
+    family, jobs = gen.gen_instance(rng, rng.choice(["classic", "irregular", "recirc", "flexible", "ties"]), max_jobs=4, max_machines=3,
+                                    max_ops=4)
+    f = gen.gen_filter(rng)
+    lines = ["new", instance_line(jobs), gen.filter_line(f), "snap"]
+    tr = gen.Tracker(jobs)
+    base = [0]
+    for job in jobs:
+        base.append(base[-1] + len(job))
+    total = gen.num_ops(jobs)
+    for _ in range(rng.randint(1, max(1, total - 1))):
+        if tr.done():
+            break
+        j, p, m = gen.gen_valid_request(rng, tr, rng.choice(["uniform", "one_job_first"]))
+        tr.take(j)
+        lines += [f"disp {j} {p} {m}", "snap"]
+    asked = []
+    for j, p in tr.ready():
+        if rng.random() < 0.8:
+            lines.append(f"ready {base[j] + p}")
+            asked.append((j, p))
+    for _ in range(rng.randint(0, 2)):
+        lines.append(f"ready {rng.randrange(total)}")
+    lines += ["reset", "snap"]
+    tr.reset()
+    n_inv = 0
+    for j, p in asked:
+        if p >= 1:
+            lines += [f"disp {j} {p} {rng.choice(jobs[j][p][0])}", "snap"]
+            n_inv += 1
+    n_acc = 0
+    while not tr.done():
+        j, p, m = gen.gen_valid_request(rng, tr)
+        tr.take(j)
+        n_acc += 1
+        lines += [f"disp {j} {p} {m}", "snap", "q is_complete"]
+    lines += ["q makespan", "q num_scheduled"]
+    return Scenario(lines, {"family": family + "+stale_ready", "filter": "none" if f is None else "+".join(f) or "empty-composite",
+                            "style": "stale_ready", "flexible": gen.is_flexible(jobs), "zero_dur": gen.has_zero(jobs), "accepted": n_acc,
+                            "invalid": n_inv, "complete": True, "filter_style": rng.choice(["callable", "enum", "str", "lazy"])})
